@@ -23,7 +23,7 @@ CHECKS = {
             TB + "Declined: 'eventually' (liveness) and end-of-run capacity counts. F1 is a recorded known finding."),
     "C03": ("Life-cycle typestate with callback roles: at every suspension/user step the id is in exactly one registry; cancel callback begun exactly once iff the coroutine left by "
             "cancellation, while filed as cancelled, before the end callback; end callback exactly once while filed as ended, slot already released, with the task id; "
-            "registry transition who-may table; callback role wiring through every hop; execute_optional awaits coroutine callbacks; WHAT(Task.cancel): every receiver is an entry of the running registry or a spawner, also when looked up through a combined view of registries.",
+            "registry transition who-may table; callback role wiring through every hop; execute_optional awaits coroutine callbacks; a supplied callback is run whatever its truth value (only `is None` / callable() decide that none was given); WHAT(Task.cancel): every receiver is an entry of the running registry or a spawner, also when looked up through a combined view of registries.",
             "typestate abstract interpretation (roles END/CANCEL/ID propagated through call bindings) + wiring + who-may tables", "5 C03",
             TB + "Declined: the counter identity as arithmetic (follows from the transition table). F1 shared."),
     "C04": ("Per-iteration typestate of _apply_spawner/_start_num (exactly one func(*args, **kwargs) per iteration, handed to exactly one completed _start_task, raising call skipped, "
@@ -31,23 +31,23 @@ CHECKS = {
             "per accepted request, argument role wiring, no time-outs.",
             "iteration typestate + context-sensitive constant propagation into guards + wiring", "5 C04",
             TB + "Declined: waiting 'however long' as a temporal statement (no time-out exists: checked as a zero-count rule with a positive control)."),
-    "C05": ("Constant table map/starmap/doublestarmap -> 0/1/2 -> star_function branch shapes (by constant propagation), iterable forwarded lazily to exactly one for-header, "
+    "C05": ("Constant table map/starmap/doublestarmap -> 0/1/2 -> star_function branch shapes (by constant propagation; with 0/1/2 star_function raises nothing of its own and returns only through the call), iterable forwarded lazily to exactly one for-header, "
             "Semaphore(num_concurrent), acquire-before-start per iteration, end callback is the semaphore-releasing wrapper, release first/once in the wrapper, "
             "who-may-release the map semaphore, skip-on-raise; unique ids (id discipline shared with C11) and spawner-table integrity as premises; HANDOFF shared (F1).",
             "table agreement by constant propagation + iteration typestate + who-may tables", "5 C05",
             TB + "Declined: 'exactly num_concurrent running whenever idle' as a count. F1 shared (known finding)."),
     "C06": ("Two-phase cancel (no look-up or raising step reachable after a Task.cancel), look-up table decided by abstract interpretation over the four id states "
-            "(running/cancelled/ended/unknown -> return / AlreadyCancelled / AlreadyEnded / TaskNotFound<=InvalidTaskID), who-may-cancel table, cancelled tasks are exactly the looked-up list; an id names one task (id discipline shared with C11); NO-SHARED-TASK (no pool coroutine awaits a task kept in an attribute).",
+            "(running/cancelled/ended/unknown -> return / AlreadyCancelled / AlreadyEnded / TaskNotFound<=InvalidTaskID), who-may-cancel table, cancelled tasks are exactly the looked-up list; an id names one task (id discipline shared with C11); NO-SHARED-TASK (no pool coroutine awaits a task kept in an attribute); NO-SWALLOW (no public coroutine of the pool absorbs a cancellation delivered at its own suspension points; F9 fixed).",
             "CFG reachability + abstract interpretation of the look-up over 4 cases + who-may-call", "5 C06",
             TB + "Declined: 'observes one CancelledError at its next suspension point' (Task semantics). F1 shared."),
     "C07": ("cancel_group validates first and raises only TaskGroupNotFound; cancel_all returns only with an empty table and hands every entry to the helper; spawners cancelled before "
             "members; member loop exhausts the register and skips no member whose task is running; cancelled spawners remembered; CANCEL-STOPS typestate on all three spawner loops; atomic slot hand-off (L-LOCK); "
-            "who-may-remove groups; register membership premise (a task is findable only through the register filed under its group).",
+            "who-may-remove groups; register membership premise (a task is findable only through the register filed under its group); REGISTER-FAITHFUL (the register's set protocol is the plain set operation); NO-SWALLOW (flush / gather_and_close / until_closed hand a cancellation of their caller on; F9 fixed).",
             "dominance/reachability + iteration typestate (CANCEL-STOPS) + who-may tables", "5 C07",
             TB + "Declined: re-entrant cancel from the group's own iterator (excluded by the property); progress of sibling groups (liveness)."),
     "C08": ("Order lock -> spawner waits -> task wait (all three registries) -> forget -> _closed.set() by completion-dominance; who-may set/clear the closed event; GATHER-COMPLETE "
             "(no swallowed early completion; cancelled-spawner gather uses return_exceptions=True); closed pools reject first (precedence in _check_start, VALIDATE-FIRST); "
-            "PoolIsLocked unreachable from spawners; FORGET-ONLY-GATHERED (may-analysis of registries that can hold an un-gathered task); HANDOFF shared.",
+            "PoolIsLocked unreachable from spawners; FORGET-ONLY-GATHERED (may-analysis of registries that can hold an un-gathered task); HANDOFF shared; slot balance of the acquirer (a lost slot leaves a blocked spawner, and the close, waiting forever).",
             "completion-dominance on the CFG + GATHER-COMPLETE rule + constant propagation", "5 C08",
             TB + "Declined: 'returns only after every task finished' as a temporal statement (follows from the order + trusted gather). F1 shared."),
     "C09": ("VALIDATE-FIRST on every spawning entry point and the pool_size setter (no trace completes before any raising exit), precedence type-check < closed < locked, raise inventory "
@@ -55,9 +55,9 @@ CHECKS = {
             "path rule VALIDATE-FIRST + constant propagation + who-may-write", "5 C09", TB + "Declined: nothing structural."),
     "C10": ("Exactly one register add per started task, in the register filed under the task's group_name, same id as the running-registry key, one atomic segment; who-may add/remove; "
             "group-name wiring through all hops and return values; name templates by abstract string evaluation; generated names returned only after the membership test; "
-            "start counter incremented once per accepted call; get_group_ids unions, maps unknown names, mutates nothing; spawner-table integrity (a cancelled group's spawners are found).",
+            "start counter incremented once per accepted call; get_group_ids unions, maps unknown names, mutates nothing; spawner-table integrity (a cancelled group's spawners are found); REGISTER-FAITHFUL.",
             "abstract string evaluation + wiring + path counting", "5 C10", TB + "Declined: set equality of reported and observed ids at run time."),
-    "C11": ("Who-may-write the id counter; read-then-increment in one atomic segment exactly once per start and never on a failing start; the same id is registry key, register member, "
+    "C11": ("Who-may-write the id counter; read-then-increment in one atomic segment (no suspension, no user code, no create_task in between) exactly once per start and never on a failing start; the same id is registry key, register member, "
             "wrapper argument, task name and return value; name templates; per-instance state; index from _add_pool; callback id by typestate.",
             "who-may-write + path counting + abstract string evaluation + typestate (ID role)", "5 C11", TB + "Declined: density as a numeric statement over histories."),
     "C12": ("Typestate (slot released exactly once before the end callback on every edge kind), no swallowing of user exceptions in the wrapper / callbacks executor, spawner "
@@ -68,7 +68,7 @@ CHECKS = {
             "SNAPSHOT-FORGET data-flow rule + effect closure + dominance", "5 C13", TB + "Declined: overlapping flushes as a temporal statement (covered per call by the snapshot rule)."),
     "C14": ("Idiom-based: ids drawn from the reversed running registry, prefix bounded by num with the test before the append, delegated once to cancel(*ids), same list returned, "
             "stop_all == stop(num_running); the bound is the num parameter itself (`num or x` makes 0 mean all); also islice / slice / takewhile forms and helpers returning the list; "
-            "positive rule: the value of an id never steers the selection (ids have gaps); cancel's own rules shared. Unrecognised computations are inconclusive.",
+            "positive rule: the value of an id never steers the selection (ids have gaps); cancel's own rules shared (NO-SWALLOW included). Unrecognised computations are inconclusive.",
             "syntax-directed idiom recognition + CFG dominance", "5 C14", TB + "Declined: nothing else is structural. F1 shared."),
     "C15": ("Getter must read configuration-only paths (violated: F5a), setter must not overwrite the occupancy-dependent counter with its parameter (F5b), raising the limit must wake "
             "waiters (F5c), validation precedes the write with the exact comparison, the semaphore object waiters are parked on is bound once.",
@@ -136,7 +136,7 @@ def main() -> None:
         "checks": checks,
         "notes": "Exit codes: 0 all obligations discharged (KNOWN-FINDING lines printed for listed findings); 1 unlisted violation (VIOLATION line); 2 analysis error/inconclusive. "
                  "Genuine defects repaired in /repo by 'fix:' commits 5efe713 (F2 flush), 73c6040 (F3 ignore_lock), 9f80802 (F4 gather_and_close), 2f24236 (F7 setter reply), "
-                 "9202657 (F8 writer.close); open findings F1, F5a-c, F6 are listed in KNOWN_FINDINGS.txt. Self-test of the checker: PYTHONPATH=/verif /venv/bin/python -m tpsa.selftest",
+                 "9202657 (F8 writer.close), 4221d47 (F9 flush no longer swallows its caller's cancellation); open findings F1, F5a-c, F6 are listed in KNOWN_FINDINGS.txt. Self-test of the checker: PYTHONPATH=/verif /venv/bin/python -m tpsa.selftest",
         "not_applicable": na,
     }
     with open(os.path.join(HERE, "MANIFEST.json"), "w") as fh:
